@@ -105,6 +105,8 @@ K_DOCS = [
     "{ a { peer { id peer { id } } pets { ... on A { id } } } }",
     "{ a { id } a { name } }",
     "{ c { node { ...NF2 } } pet { ... on Node { id } } } fragment NF2 on Node { id ... on A { a } }",
+    "{ nodes { ... on Node { peer { id } } ... on A { peer { name } } ... on B { peer { __typename } } } }",
+    "{ a { ...PF peer { name } } b { ...PF peer { id } } } fragment PF on Node { peer { __typename } }",
     "query D($n: Int = 2) @dq { num @dq(n: $n) ...DF @dq ... @dq(t: \"x\") { color } } fragment DF on Query @dq { need(x: 1) }",
     "{ lst(xs: [1, 2], m: [[1], null], ps: [{a: 1, c: [2]}]) hello(e: BLUE, t: \"x\", p: {b: \"y\"}) }",
 ]
